@@ -130,7 +130,10 @@ def xsd_event(data, sig, reader):
 # tables: Codec.tla is the source of truth (TABLE line of any MC_Codec run); the Python values must match
 # ======================================================================================================================
 NUM = {"zero": 0.0, "one": 1.0, "tenth": 0.1, "half": 0.5, "ordinary": 12.345678, "tiny": 1e-6, "small": 9.9e-5,
-       "big": 1e5, "long": 123456.789012, "neg": -2.25, "angle": 0.7853981633974483}
+       "big": 1e5, "long": 123456.789012, "neg": -2.25, "angle": 0.7853981633974483,
+       # near twins (Codec!NearPairs): closer than 1e-10 to their partner, other doubles
+       "negzero": -0.0, "ordinary2": 12.345678000001, "one2": 1.0000000000001, "half2": 0.50000000000001, "p3": 0.3,
+       "p3b": 0.30000000000000004, "angle2": 0.78539816339745}
 GEO_REF = {"None": None, "utm": "+proj=utm +zone=32 +ellps=WGS84"}
 AUTHOR, AFFILIATION, SOURCE = "crv-author", "crv-affiliation", "crv-source"
 COMPONENTS = ["obstacle", "planning", "lanelet", "sign", "light", "intersection", "header", "numbers"]
@@ -208,6 +211,9 @@ def check_tables(t, notes):
     import math
     if sorted(t["angletoks"]) != sorted(k for k, v in NUM.items() if abs(v) <= 2 * math.pi):
         bad.append("angle tokens")
+    for a, b in t["near"]:
+        if not (abs(NUM[a] - NUM[b]) < 1e-10 and struct.pack("<d", NUM[a]) != struct.pack("<d", NUM[b])):
+            bad.append("near pair %s %s" % (a, b))
     for lo, hi in t["intervals"]:
         if not NUM[lo] < NUM[hi]:
             bad.append("interval pair %s %s" % (lo, hi))
@@ -932,6 +938,26 @@ def _where(ex):
 TRANSLATION = (3.0, -2.0)          # lattice vector of the edit "translate"
 
 
+_NUM_KEYS = {"l", "w", "o", "cx", "cy", "r", "s", "x", "y", "lo", "hi", "xt", "yt", "zr", "sc", "lat", "lon", "dt", "geo"}
+
+
+def near_twin(desc):
+    """the descriptor with every number token replaced by its Codec!NearPairs partner (written first in route "twin")"""
+    swap = {}
+    for a, b in tables()["near"]:
+        swap[a], swap[b] = b, a
+
+    def walk(x, key=None):
+        if isinstance(x, dict):
+            return {k: walk(v, k) for k, v in x.items()}
+        if isinstance(x, list):
+            return [walk(v, key) for v in x]
+        if isinstance(x, str) and key in _NUM_KEYS:
+            return swap.get(x, x)
+        return x
+    return walk(desc)
+
+
 def apply_edit(sc, pps, desc, edited, edit):
     """Edit the real objects IN PLACE so that they become what `edited` (= Codec!EditOf(desc, reuse), printed by TLC)
     describes: objects whose id is new are built and added, objects whose id vanished are removed, a changed traffic light
@@ -955,6 +981,16 @@ def apply_edit(sc, pps, desc, edited, edit):
     for o in desc["obstacles"]:
         if o["id"] not in ids(edited["obstacles"]):
             sc.remove_obstacle(sc.obstacle_by_id(o["id"]))
+    net = sc.lanelet_network                      # removals go through the Scenario API: it cleans the references in place
+    for x in desc["signs"]:
+        if x["id"] not in ids(edited["signs"]):
+            sc.remove_traffic_sign(net.find_traffic_sign_by_id(x["id"]))
+    for x in desc["lights"]:
+        if x["id"] not in ids(edited["lights"]):
+            sc.remove_traffic_light(net.find_traffic_light_by_id(x["id"]))
+    for x in desc["lanelets"]:
+        if x["id"] not in ids(edited["lanelets"]):
+            sc.remove_lanelet(net.find_lanelet_by_id(x["id"]))
     old = {t["id"]: t for t in desc["lights"]}
     for t in edited["lights"]:
         if t["id"] in old and t["off"] != old[t["id"]]["off"]:
@@ -996,6 +1032,15 @@ def _roundtrip(desc, d, fmt, reuse=None, edited=None):
         header = lambda: _WriterHeader(sc, wkw) if wkw else None
         new_writer = lambda: CommonRoadFileWriter(sc, pps, decimal_precision=d, file_format=ff, **wkw)
         reader = None
+        if route == "twin":                               # another scenario, another writer object, same process
+            sct, ppst, wkwt = gamma(near_twin(desc))
+            try:
+                CommonRoadFileWriter(sct, ppst, decimal_precision=d, file_format=ff, **wkwt).write_to_file(
+                    path1, OverwriteExistingFile.ALWAYS)
+            except Exception as ex:
+                res["orig"] = alpha(sc, pps, header_from=header())
+                res["exc"], res["why"] = "write", _where(ex)
+                return res
         try:
             writer = new_writer()
             if route == "writer":
